@@ -1435,8 +1435,14 @@ func (ls *LState) NewThread() (*LState, context.CancelFunc) {
 	thread.Env = ls.Env
 	var f context.CancelFunc = nil
 	if ls.ctx != nil {
+		// the new thread lives as long as the state's context, not as long as the coroutine that happens to
+		// create it: that one's context is cancelled when it finishes
+		base := ls.ctx
+		if main := ls.G.MainThread; main != nil && main.ctx != nil {
+			base = main.ctx
+		}
 		thread.mainLoop = mainLoopWithContext
-		thread.ctx, f = context.WithCancel(ls.ctx)
+		thread.ctx, f = context.WithCancel(base)
 		thread.ctxCancelFn = f
 	}
 	return thread, f
